@@ -8,3 +8,6 @@ import AGV.Props.C21
 #print axioms AGV.Props.C21.c21_witness_inlineNoCondLosesType
 #print axioms AGV.Props.C21.c21_witness_listNotRecursed
 #print axioms AGV.Props.C21.c21_witness_varDefaultPrinted
+#print axioms AGV.Props.C21.c21_nested_secret_redacted
+#print axioms AGV.Props.C21.c21_nested_secret_redacted_args
+#print axioms AGV.Props.C21.c21_nested_example
